@@ -585,7 +585,11 @@ class C16Profile(session.Profile):
             if name == "holstein":
                 nmol = rnd.randint(1, 3)
                 nph = rnd.randint(1, 2)
-                ph = [[{"w0": round(rnd.uniform(0.5, 2), 3), "w1": 0, "d": round(rnd.uniform(-1, 1), 3), "n": rnd.randint(2, 3)} for _ in range(nph)] for _ in range(rnd.choice([1, nmol]))]
+                # keep the dense reference small: (2 * n^nph)^nmol <= ~600
+                nmax = 3 if (nmol, nph) in ((1, 1), (1, 2), (2, 1)) else 2
+                if nmol == 3 and nph == 2:
+                    nph = 1
+                ph = [[{"w0": round(rnd.uniform(0.5, 2), 3), "w1": 0, "d": round(rnd.uniform(-1, 1), 3), "n": rnd.randint(2, nmax)} for _ in range(nph)] for _ in range(rnd.choice([1, nmol]))]
                 for row in ph:
                     for pp in row:
                         pp["w1"] = pp["w0"] if rnd.random() < 0.6 else round(pp["w0"] * rnd.uniform(0.7, 1.3), 3)
